@@ -540,7 +540,29 @@ func c01ParseMeta(s string) ([][2]string, bool) {
 
 // c01BuildBody encodes `{S cols {B rows seed meta | K tok call}}` and returns the bytes plus the
 // model line of the abstract body.
+// c01Marks: what the harness itself stamped, batch by batch in wire order, in the body it built
+// last: the value of the batch's first stream_state key (K: the token) and of its first
+// call_state key (K: the call token; the stamper omits an empty one). nil = key absent.
+var c01Marks [][2][]byte
+
+// c01ExpectedTokens is the documented rule of FindStreamTokens stated on those marks: walk the
+// batches of all concatenated streams in order; the first NON-EMPTY cursor wins; the call token
+// is the first non-empty one seen no later than the cursor's batch (earlier streams included);
+// without a cursor, the first non-empty call token of the whole body.
+func c01ExpectedTokens(marks [][2][]byte) (cursor, call []byte) {
+	for _, m := range marks {
+		if call == nil && len(m[1]) > 0 {
+			call = m[1]
+		}
+		if len(m[0]) > 0 {
+			return m[0], call
+		}
+	}
+	return nil, call
+}
+
 func c01BuildBody(words []string) (data []byte, model string, tokens [][2][]byte, ok bool) {
+	c01Marks = nil
 	var buf bytes.Buffer
 	mw := []string{"body"}
 	i := 0
@@ -567,6 +589,22 @@ func c01BuildBody(words []string) (data []byte, model string, tokens [][2][]byte
 				if e1 != nil || e2 != nil || !okm || rows < 0 || rows > 64 {
 					return nil, "", nil, false
 				}
+				var mark [2][]byte
+				for _, kv := range meta {
+					if kv[0] == vgirpc.MetaStreamState && mark[0] == nil {
+						mark[0] = []byte(kv[1])
+						if mark[0] == nil {
+							mark[0] = []byte{}
+						}
+					}
+					if kv[0] == vgirpc.MetaCallState && mark[1] == nil {
+						mark[1] = []byte(kv[1])
+						if mark[1] == nil {
+							mark[1] = []byte{}
+						}
+					}
+				}
+				c01Marks = append(c01Marks, mark)
 				rec := c01Batch(schema, rows, seed, meta)
 				err := wr.Write(rec)
 				mw = append(mw, c01BatchText(rec))
@@ -588,6 +626,11 @@ func c01BuildBody(words []string) (data []byte, model string, tokens [][2][]byte
 					return nil, "", nil, false
 				}
 				tokens = append(tokens, [2][]byte{tok, call})
+				km := [2][]byte{append([]byte{}, tok...), nil}
+				if len(call) > 0 {
+					km[1] = call
+				}
+				c01Marks = append(c01Marks, km)
 				mw = append(mw, "K", words[i+1], words[i+2])
 				i += 3
 			}
@@ -772,8 +815,28 @@ func c01Exec(c *Case) {
 				continue
 			}
 			data, model = d, m
+			marks := c01Marks
 			c.Stat("body:" + tag)
 			post = func(o *c01Obs) {
+				// the finder clause, stated on what the harness stamped (independent of the model)
+				wantCur, wantCall := c01ExpectedTokens(marks)
+				if !bytes.Equal(o.state, wantCur) || (wantCur == nil) != (o.state == nil) ||
+					!bytes.Equal(o.call, wantCall) || (wantCall == nil) != (o.call == nil) {
+					cls := "token-finder-first-wins"
+					if !bytes.Equal(o.state, wantCur) || (wantCur == nil) != (o.state == nil) {
+						cls = "token-finder-wrong-cursor"
+					} else if wantCall != nil && o.call == nil {
+						cls = "token-finder-dropped-call-token"
+					}
+					c.Oracle(cls, fmt.Sprintf("%q: stamped (first-wins) cursor=%q call=%q, FindStreamTokens returned cursor=%q call=%q",
+						l, wantCur, wantCall, o.state, o.call))
+				}
+				if wantCur != nil {
+					c.Stat("finder:cursor")
+				}
+				if wantCall != nil {
+					c.Stat("finder:call")
+				}
 				// the arrow-go bridge: what was encoded is what an independent walk reads back
 				if back, pok := c01Parse(d); pok && !strings.Contains(m, " K ") && back != m {
 					c.Oracle("codec-bridge-mismatch", fmt.Sprintf("%q: encoded %q, walked %q", l, m, back))
